@@ -411,6 +411,71 @@ pub fn lzw_encode_opts(data: &[u8], early: bool, o: &LzwOpts, rng: &mut Rng) -> 
     bw.finish()
 }
 
+/// A random *valid code sequence* built on the reader's side of the protocol (every such sequence is what
+/// some conforming, not necessarily greedy, encoder emits): literals, table entries with a bias to the most
+/// recent ones, the not-yet-defined code `next` (KwKwK) whenever it is allowed, clear-table codes, and
+/// `after_full` further codes once entry 4095 exists. Returns (decoded bytes, packed stream).
+pub fn lzw_random_codes(rng: &mut Rng, early: bool, n_codes: usize, after_full: usize, max_word: usize) -> (Vec<u8>, Vec<u8>) {
+    let mut bw = BitWriter { out: vec![], acc: 0, nb: 0 };
+    let mut table: Vec<Vec<u8>> = vec![];
+    let mut width = 9u32;
+    let mut prev: Option<Vec<u8>> = None;
+    let mut out = vec![];
+    let mut full_codes = 0usize;
+    let e = if early { 1 } else { 0 };
+    if !rng.chance(1, 8) {
+        bw.put(256, width);
+    }
+    for _ in 0..n_codes {
+        let next = 258 + table.len() as u32;
+        let full = next >= 4096;
+        if (full && full_codes >= after_full) || rng.chance(1, 3000) {
+            bw.put(256, width);
+            table.clear();
+            width = 9;
+            prev = None;
+            full_codes = 0;
+            continue;
+        }
+        // pick a code and its word
+        let pick = rng.below(100);
+        let (code, word): (u32, Vec<u8>) = {
+            let kwkwk_ok = prev.is_some() && !full;
+            let recent = |rng: &mut Rng, table: &Vec<Vec<u8>>| -> Option<(u32, Vec<u8>)> {
+                if table.is_empty() { return None; }
+                let back = rng.usize(table.len().min(4));
+                let i = table.len() - 1 - back;
+                Some((258 + i as u32, table[i].clone()))
+            };
+            let cand = if pick < 30 { None }
+                else if pick < 50 && kwkwk_ok { let p = prev.clone().unwrap(); let mut w = p.clone(); w.push(p[0]); Some((next, w)) }
+                else if pick < 85 { recent(rng, &table) }
+                else if !table.is_empty() { let i = rng.usize(table.len()); Some((258 + i as u32, table[i].clone())) }
+                else { None };
+            match cand {
+                Some((c, w)) if w.len() <= max_word => (c, w),
+                _ => { let b = if rng.chance(1, 2) { rng.byte() } else { *rng.pick(b"ab") }; (b as u32, vec![b]) }
+            }
+        };
+        bw.put(code, width);
+        out.extend_from_slice(&word);
+        if let Some(p) = &prev {
+            if !full {
+                let mut entry = p.clone();
+                entry.push(word[0]);
+                table.push(entry);
+                if next >= (1u32 << width) - 1 - e && width < 12 {
+                    width += 1;
+                }
+            }
+        }
+        if full { full_codes += 1; }
+        prev = Some(word);
+    }
+    bw.put(257, width);
+    (out, bw.finish())
+}
+
 /// reference PDF LZW decoder: None = invalid code stream
 pub fn lzw_decode_ref(data: &[u8], early: bool) -> Option<Vec<u8>> {
     let mut out = vec![];
